@@ -185,6 +185,25 @@ var c18Vectors = []c18Vector{
 		}
 		return "base.kid.yaml", c18Write(filepath.Join(root, "base.kid.yaml"), "e: 1\n")
 	}, `[{"d":"A","e":1}]`},
+	// a chain that leaves the root and comes back: the link it passes through lives outside
+	{"symlink-out-and-back", true, func(root, tdir string) (string, error) {
+		back := filepath.Join(root, tdir, "back."+c18Ext)
+		os.MkdirAll(filepath.Dir(back), 0o755)
+		abs, _ := filepath.Abs(filepath.Join(root, "inside", "decoy."+c18Ext))
+		rel, _ := filepath.Rel(filepath.Dir(back), abs)
+		if err := os.Symlink(rel, back); err != nil {
+			return "", err
+		}
+		return "ob." + c18Ext, os.Symlink(tdir+"/back."+c18Ext, filepath.Join(root, "ob."+c18Ext))
+	}, `[{"d":"A"}]`},
+	// an absolute first hop inside the root, then a relative hop that leaves it
+	{"absolute-in-root-then-escape", false, func(root, tdir string) (string, error) {
+		if err := os.Symlink(tdir+"/decoy."+c18Ext, filepath.Join(root, "hop."+c18Ext)); err != nil {
+			return "", err
+		}
+		abs, _ := filepath.Abs(filepath.Join(root, "hop."+c18Ext))
+		return "abs." + c18Ext, os.Symlink(abs, filepath.Join(root, "abs."+c18Ext))
+	}, ""},
 	{"input-path", true, func(root, tdir string) (string, error) {
 		return tdir + "/decoy." + c18Ext, nil
 	}, `[{"d":"A"}]`},
@@ -529,7 +548,7 @@ func buildC18(tier string) *core.Plan {
 		}}
 	return &core.Plan{
 		Spaces: []core.Space{cli, lib, lib2, c18ChdirSpace()},
-		Rule: "product of 5 root spellings (., name from the parent, .. from a sub-directory, absolute, and / as a control) x 4 entry spellings x 16 escape vectors ($parent relative/from a sub-directory/absolute/wildcard, file symlink relative/absolute/chained, directory symlink via $parent and via the input path, symlink whose target name has a parent, input path with .., virtual extension, an escaping $parent behind an in-root parent, as the second entry of a $parent list, a symlinked directory behind an in-root symlink, a symlinked file as the filename parent) " +
+		Rule: "product of 5 root spellings (., name from the parent, .. from a sub-directory, absolute, and / as a control) x 4 entry spellings x 18 escape vectors ($parent relative/from a sub-directory/absolute/wildcard, file symlink relative/absolute/chained, directory symlink via $parent and via the input path, symlink whose target name has a parent, input path with .., virtual extension, an escaping $parent behind an in-root parent, as the second entry of a $parent list, a symlinked directory behind an in-root symlink, a symlinked file as the filename parent, a link chain that leaves the root and returns, an absolute in-root link followed by an escaping one) " +
 			"x {escaping to an unrelated directory, escaping to a sibling directory whose name extends the root name, non-escaping twin} x 4 states of the outside decoy (content A, content B, invalid, absent); every escaping case also with the decoys in json, toml and jsonl",
 		Assumptions: []string{"an inotify watch (IN_OPEN|IN_ACCESS) on every decoy file outside the root observes opens and reads by the bkl process; stat and readlink do not raise these events and are not 'reading contents'",
 			"with -r / nothing is outside: those runs are the control showing that each vector does reach the decoy when not confined",
